@@ -314,6 +314,33 @@ func SendRPC(addr string, req datastore.Request) error {
 	return reply.Write(os.Stdout)
 }
 
+// readOnlyDataCommand reports whether a data instance command only reads data.  Every
+// other "node <UUID> <data name> <command>" is held to the rule the HTTP API applies to
+// mutation requests (instanceSelector): it cannot be run on a committed node.
+func readOnlyDataCommand(subcommand string) bool {
+	switch subcommand {
+	case "help", "dump", "dump-cloud", "version-changes":
+		return true
+	}
+	return false
+}
+
+// checkNodeMutable returns an error if the node is committed, mirroring the HTTP API
+// where only a server in full-write mode can modify committed nodes.
+func checkNodeMutable(uuid dvid.UUID, what string) error {
+	if fullwrite {
+		return nil
+	}
+	locked, err := datastore.LockedUUID(uuid)
+	if err != nil {
+		return err
+	}
+	if locked {
+		return fmt.Errorf("Cannot do %s on locked node %s", what, uuid)
+	}
+	return nil
+}
+
 // switchboard for remote command execution
 func handleCommand(cmd *datastore.Request) (reply *datastore.Response, err error) {
 	if cmd.Name() == "" {
@@ -432,6 +459,10 @@ func handleCommand(cmd *datastore.Request) (reply *datastore.Response, err error
 		case "new":
 			var typename, dataname string
 			cmd.CommandArgs(3, &typename, &dataname)
+
+			if err = checkNodeMutable(uuid, "new data instance"); err != nil {
+				return
+			}
 
 			// Get TypeService
 			var typeservice datastore.TypeService
@@ -713,6 +744,11 @@ func handleCommand(cmd *datastore.Request) (reply *datastore.Response, err error
 		if subcommand == "help" {
 			reply.Text = dataservice.Help()
 			return
+		}
+		if dataservice.Versioned() && !readOnlyDataCommand(cmd.TypeCommand()) {
+			if err = checkNodeMutable(uuid, fmt.Sprintf("%q command", cmd.TypeCommand())); err != nil {
+				return
+			}
 		}
 		err = dataservice.DoRPC(*cmd, reply)
 		return
